@@ -388,3 +388,26 @@ def shift_tmps(blocks):
             return [sh(x) for x in t]
         return t
     return [dict(b, stmts=sh(b["stmts"]), pred=sh(b["pred"])) for b in blocks], off
+
+
+def conv_stmts(ns):
+    out = []
+    for n in ns:
+        if isinstance(n, ast.If):
+            out.append(("If", from_ast_expr(n.test), conv_stmts(n.body), conv_stmts(n.orelse)))
+        elif isinstance(n, ast.While):
+            out.append(("While", from_ast_expr(n.test), conv_stmts(n.body), conv_stmts(n.orelse)))
+        elif isinstance(n, ast.Break):
+            out.append(("Break",))
+        elif isinstance(n, ast.Continue):
+            out.append(("Continue",))
+        elif isinstance(n, ast.Pass):
+            out.append(("Pass",))
+        else:
+            out.append(from_ast_simple(n))
+    return out
+
+
+def parse_program(src):
+    """Python source of one function -> PyAst term of its body (Unencodable outside the fragment)."""
+    return conv_stmts(ast.parse(src).body[0].body)
